@@ -1,9 +1,11 @@
 //! cw1-whitelist / cw1-subkeys: executes schedules / random runs on the real proxies and records the
 //! projected abstract state after every call (properties C07 C08 C16 C17).
 //!
-//! The proxies are wrapped with `Recorded::stripping`: every Response they return is logged and the
-//! relayed messages are then dropped, so nothing has to be funded, staked or deployed for a relayed
-//! message to be observed.  `out` of an event is the list of messages the proxy returned, decoded from
+//! The proxies are wrapped with the recorder (`Recorded`): every Response they return is logged; a
+//! cw1-local wrapper then drops the relayed messages, so nothing has to be funded, staked or deployed
+//! for a relayed message to be observed - EXCEPT wasm executes addressed to the proxy itself
+//! (re-entrant UpdateAdmins / Freeze / IncreaseAllowance / SetPermissions): these stay in the Response
+//! and are really dispatched by cw-multi-test with the proxy as sender.  `out` of an event is the list of messages the proxy returned, decoded from
 //! the typed `SubMsg`s (independently of the encoder of the submitted messages) into the same abstract
 //! records `{"k","to","coins","tag"}`.
 //!
@@ -33,6 +35,12 @@ const IBC_TIMEOUT: u64 = T0 + 1_000_000;
 thread_local! {
     static PROBE: Cell<bool> = Cell::new(false);
     static PROBE_OK: Cell<bool> = Cell::new(false);
+    /// number of proxy executes started in this step (0 = the next one is the call made by the
+    /// driver; relayed self-calls are dispatched after it has returned)
+    static DEPTH: Cell<u32> = Cell::new(0);
+    /// did the outermost execute entry point return Ok (the proxy's own decision, whatever
+    /// happens to the messages it relays afterwards)
+    static RET: Cell<bool> = Cell::new(false);
 }
 
 /// Dry-run wrapper: while PROBE is set, a successful `execute` of the wrapped contract is noted and
@@ -42,11 +50,20 @@ struct Prober {
 }
 impl Contract<Empty> for Prober {
     fn execute(&self, deps: DepsMut, env: Env, info: MessageInfo, msg: Vec<u8>) -> AnyResult<Response> {
-        let r = self.inner.execute(deps, env, info, msg)?;
+        let me = env.contract.address.to_string();
+        let depth = DEPTH.with(|d| d.get());
+        DEPTH.with(|d| d.set(depth + 1));
+        let r = self.inner.execute(deps, env, info, msg);
+        if depth == 0 {
+            RET.with(|x| x.set(r.is_ok()));
+        }
+        let mut r = r?;
         if PROBE.with(|p| p.get()) {
             PROBE_OK.with(|p| p.set(true));
             anyhow::bail!("dry run: rolled back");
         }
+        // relayed messages are dropped (they were logged by the recorder) except re-entrant calls
+        r.messages.retain(|sm| matches!(&sm.msg, CosmosMsg::Wasm(WasmMsg::Execute { contract_addr, .. }) if *contract_addr == me));
         Ok(r)
     }
     fn instantiate(&self, deps: DepsMut, env: Env, info: MessageInfo, msg: Vec<u8>) -> AnyResult<Response> {
@@ -80,7 +97,7 @@ fn proxy_code(flavour: &str) -> Box<dyn Contract<Empty>> {
             cw1_subkeys::contract::query,
         ))
     };
-    Box::new(Prober { inner: Recorded::stripping("cw1", real) })
+    Box::new(Prober { inner: Recorded::new("cw1", real) })
 }
 
 pub struct Run {
@@ -88,6 +105,9 @@ pub struct Run {
     pub sc: Scale,
     pub flavour: String,
     pub proxy: Option<Addr>,
+    /// driver memory: the last non-empty allowance reported per key (the queries hide expired
+    /// allowances; the drivers keep aiming at them after the expiry)
+    pub memo: std::collections::BTreeMap<String, [i64; 2]>,
 }
 
 fn ok_out() -> CallOut {
@@ -157,8 +177,63 @@ impl Run {
                 };
                 GovMsg::Vote { proposal_id: id.parse().unwrap_or(1), option }.into()
             }
+            "self_update_admins" | "self_freeze" | "self_increase" | "self_set_perm" => {
+                let inner: ExecuteMsg<Empty> = match k.as_str() {
+                    "self_update_admins" => ExecuteMsg::UpdateAdmins {
+                        admins: tag.split(',').filter(|x| !x.is_empty()).map(|x| self.target(x)).collect(),
+                    },
+                    "self_freeze" => ExecuteMsg::Freeze {},
+                    "self_increase" => ExecuteMsg::IncreaseAllowance {
+                        spender: to,
+                        amount: one(),
+                        expires: if tag == "never" { Some(cw_utils::Expiration::Never {}) } else { None },
+                    },
+                    _ => ExecuteMsg::SetPermissions {
+                        spender: to,
+                        permissions: Permissions {
+                            delegate: tag.contains('d'),
+                            undelegate: tag.contains('u'),
+                            redelegate: tag.contains('r'),
+                            withdraw: tag.contains('w'),
+                        },
+                    },
+                };
+                WasmMsg::Execute { contract_addr: self.px().to_string(), msg: cosmwasm_std::to_json_binary(&inner).unwrap(), funds: vec![] }.into()
+            }
             other => panic!("cw1: unknown message kind {other}"),
         }
+    }
+
+    /// a wasm execute addressed to the proxy itself -> abstract record, if it is one of the known calls
+    fn decode_self(&self, msg: &Binary, funds: &[Coin]) -> Option<(String, String, Vec<Value>, String)> {
+        if !funds.is_empty() {
+            return None;
+        }
+        let inner: ExecuteMsg<Empty> = cosmwasm_std::from_json(msg).ok()?;
+        Some(match inner {
+            ExecuteMsg::UpdateAdmins { admins } => {
+                ("self_update_admins".into(), "proxy".into(), vec![], admins.iter().map(|a| self.w.name_of(a)).collect::<Vec<_>>().join(","))
+            }
+            ExecuteMsg::Freeze {} => ("self_freeze".into(), "proxy".into(), vec![], "".into()),
+            ExecuteMsg::IncreaseAllowance { spender, amount, expires } => {
+                let tag = match expires {
+                    None => "keep",
+                    Some(cw_utils::Expiration::Never {}) => "never",
+                    _ => return None,
+                };
+                ("self_increase".into(), self.w.name_of(&spender), vec![self.coin_down(&amount)], tag.into())
+            }
+            ExecuteMsg::SetPermissions { spender, permissions: p } => {
+                let mut tag = String::new();
+                for (f, c) in [(p.delegate, 'd'), (p.undelegate, 'u'), (p.redelegate, 'r'), (p.withdraw, 'w')] {
+                    if f {
+                        tag.push(c);
+                    }
+                }
+                ("self_set_perm".into(), self.w.name_of(&spender), vec![], tag)
+            }
+            _ => return None,
+        })
     }
 
     /// SubMsg returned by the proxy -> abstract message record (written independently of `encode`)
@@ -176,6 +251,11 @@ impl Run {
             CosmosMsg::Distribution(DistributionMsg::WithdrawDelegatorReward { validator }) => ("withdraw".into(), nm(validator), vec![], "".into()),
             CosmosMsg::Distribution(DistributionMsg::SetWithdrawAddress { address }) => ("set_withdraw".into(), nm(address), vec![], "".into()),
             CosmosMsg::Distribution(DistributionMsg::FundCommunityPool { amount }) => ("fund_pool".into(), "none".into(), cs(amount), "".into()),
+            CosmosMsg::Wasm(WasmMsg::Execute { contract_addr, msg, funds })
+                if self.proxy.as_ref().map(|p| p.as_str() == contract_addr).unwrap_or(false) && self.decode_self(msg, funds).is_some() =>
+            {
+                self.decode_self(msg, funds).unwrap()
+            }
             CosmosMsg::Wasm(WasmMsg::Execute { contract_addr, msg, funds }) => {
                 let payload = cosmwasm_std::from_json::<String>(msg).unwrap_or_else(|_| "?".into());
                 ("wasm_exec".into(), nm(contract_addr), cs(funds), payload)
@@ -201,12 +281,11 @@ impl Run {
         json!({"k": k, "to": to, "coins": coins, "tag": tag})
     }
 
+    /// the messages of the Response of the outermost call (the first one logged: nested calls are
+    /// dispatched, and logged, after it was returned)
     fn out_of(&self, log: &[Logged]) -> Vec<Value> {
         let mut outv = vec![];
-        for l in log {
-            if l.tag != "cw1" {
-                continue;
-            }
+        for l in log.iter().filter(|l| l.tag == "cw1").take(1) {
             match serde_json::from_value::<Vec<SubMsg>>(l.messages.clone()) {
                 Ok(ms) => {
                     for m in &ms {
@@ -314,7 +393,7 @@ impl Run {
         }
         let creator = w.user("creator");
         let code_id = w.app.store_code(proxy_code(&flavour));
-        let mut run = Run { w, sc, flavour: flavour.clone(), proxy: None };
+        let mut run = Run { w, sc, flavour: flavour.clone(), proxy: None, memo: Default::default() };
         let admins: Vec<String> = cfg["admins"].as_array().unwrap().iter().map(|a| run.target(a.as_str().unwrap())).collect();
         let msg = InstantiateMsg { admins, mutable: cfg["mutable"].as_bool().unwrap_or(true) };
         let r = call(&mut run.w, |w| {
@@ -325,14 +404,14 @@ impl Run {
         let mut cfgv = cfg.clone();
         cfgv["maxAmt"] = json!(run.sc.max_amt());
         if !r.ok {
-            out.emit(&json!({"act":"reset","sys":"cw1","run":run_no,"cfg":cfgv,"ok":false,"panic":r.panic,"err":r.err,"can":false,
+            out.emit(&json!({"act":"reset","sys":"cw1","run":run_no,"cfg":cfgv,"ok":false,"ret":false,"panic":r.panic,"err":r.err,"can":false,
                 "now":run.w.now(),"out":[],"anom":[],"obs":Self::zero_obs()}));
             return None;
         }
         run.proxy = Some(run.w.addr("proxy"));
         let obs = run.observe();
         let anom = run.sc.take_anomalies();
-        out.emit(&json!({"act":"reset","sys":"cw1","run":run_no,"cfg":cfgv,"ok":true,"panic":false,"err":"","can":false,
+        out.emit(&json!({"act":"reset","sys":"cw1","run":run_no,"cfg":cfgv,"ok":true,"ret":true,"panic":false,"err":"","can":false,
             "now":run.w.now(),"out":[],"anom":anom,"obs":obs}));
         Some(run)
     }
@@ -368,6 +447,8 @@ impl Run {
         let p = self.px();
         let mut can = false;
         let mut outv: Vec<Value> = vec![];
+        DEPTH.with(|d| d.set(0));
+        RET.with(|x| x.set(false));
         let r: CallOut = match act.as_str() {
             "advance" => {
                 self.w.advance(n(&args, "dh"), n(&args, "dt"));
@@ -435,8 +516,19 @@ impl Run {
             }
         };
         let obs = self.observe();
+        for k in ADDRS {
+            let r = rem_of(&obs, k);
+            if r != [0, 0] {
+                self.memo.insert(k.to_string(), r);
+            }
+        }
         let anom = self.sc.take_anomalies();
-        out.emit(&json!({"act":act,"by":by,"args":args,"ok":r.ok,"panic":r.panic,"err":r.err,"can":can,
+        // ret: the proxy's own entry point returned Ok (differs from ok only when a relayed self-call failed)
+        let ret = if act == "advance" { true } else { RET.with(|x| x.get()) };
+        if r.ok && !ret {
+            self.sc.anomalies.borrow_mut().push("committed although the entry point failed".into());
+        }
+        out.emit(&json!({"act":act,"by":by,"args":args,"ok":r.ok,"ret":ret,"panic":r.panic,"err":r.err,"can":can,
             "now":self.w.now(),"out":outv,"anom":anom,"obs":obs}));
         obs
     }
@@ -476,6 +568,16 @@ fn rem_of(obs: &Value, k: &str) -> [i64; 2] {
     [obs["al"][k]["c"]["d1"].as_i64().unwrap_or(0), obs["al"][k]["c"]["d2"].as_i64().unwrap_or(0)]
 }
 
+/// what to aim a spend of `k` at: the reported remainder, or (allowance hidden or used up) the last one seen
+fn aim(obs: &Value, memo: &std::collections::BTreeMap<String, [i64; 2]>, k: &str) -> [i64; 2] {
+    let r = rem_of(obs, k);
+    if r == [0, 0] {
+        memo.get(k).copied().unwrap_or(r)
+    } else {
+        r
+    }
+}
+
 /// a bank send whose coins are chosen around what is left of `left` (updated: cumulative spending)
 fn rand_send(rng: &mut Rng, left: &mut [i64; 2], top: i64) -> Value {
     let ncoins = match rng.below(10) {
@@ -511,16 +613,38 @@ fn rand_msg(rng: &mut Rng, left: &mut [i64; 2], top: i64, send_bias: u64) -> Val
         7 => json!({"k":"wasm_exec","to":"k1","coins": if rng.chance(1,2) { c1(rng) } else { json!([]) },"tag":format!("p{}", rng.below(3))}),
         8 => json!({"k":"ibc_transfer","to":*rng.pick(&["r1","a4"]),"coins":c1(rng),"tag":*rng.pick(&["ch1","ch2"])}),
         9 => json!({"k":"vote","to":"none","coins":[],"tag":format!("{}:{}", rng.range(1, 3), *rng.pick(&["yes","no","abstain","veto"]))}),
-        _ => json!({"k":"delegate","to":"v1","coins":c1(rng),"tag":""}),
+        _ => rand_self(rng),
+    }
+}
+
+/// a re-entrant call: the proxy is asked to call one of its own administrative entry points
+fn rand_self(rng: &mut Rng) -> Value {
+    match rng.below(6) {
+        0 | 1 | 2 => {
+            let nadm = rng.below(3);
+            let lst: Vec<&str> = (0..nadm).map(|_| *rng.pick(&ADDRS)).collect();
+            json!({"k":"self_update_admins","to":"proxy","coins":[],"tag":lst.join(",")})
+        }
+        3 => json!({"k":"self_freeze","to":"proxy","coins":[],"tag":""}),
+        4 => json!({"k":"self_increase","to":*rng.pick(&ADDRS),"coins":[{"d": *rng.pick(&DENOMS), "a": rng.range(1, 4)}],"tag":*rng.pick(&["never","keep"])}),
+        _ => {
+            let mut tag = String::new();
+            for c in ['d', 'u', 'r', 'w'] {
+                if rng.chance(1, 2) {
+                    tag.push(c);
+                }
+            }
+            json!({"k":"self_set_perm","to":*rng.pick(&ADDRS),"coins":[],"tag":tag})
+        }
     }
 }
 
 /// somebody likely to be interesting as a caller: holders of grants first
-fn rand_caller(rng: &mut Rng, obs: &Value) -> String {
+fn rand_caller(rng: &mut Rng, obs: &Value, memo: &std::collections::BTreeMap<String, [i64; 2]>) -> String {
     let holders: Vec<&str> = ADDRS
         .iter()
         .copied()
-        .filter(|k| obs["alist"].as_array().map(|l| l.iter().any(|e| e["s"] == *k)).unwrap_or(false) || obs["plist"].as_array().map(|l| l.iter().any(|e| e["s"] == *k)).unwrap_or(false))
+        .filter(|k| memo.contains_key(*k) || obs["alist"].as_array().map(|l| l.iter().any(|e| e["s"] == *k)).unwrap_or(false) || obs["plist"].as_array().map(|l| l.iter().any(|e| e["s"] == *k)).unwrap_or(false))
         .collect();
     if !holders.is_empty() && rng.chance(3, 5) {
         holders[rng.below(holders.len() as u64) as usize].to_string()
@@ -538,9 +662,9 @@ fn rand_admin(rng: &mut Rng, obs: &Value, p_num: u64, p_den: u64) -> String {
     }
 }
 
-fn rand_probe(rng: &mut Rng, obs: &Value, top: i64) -> Value {
-    let by = rand_caller(rng, obs);
-    let mut left = rem_of(obs, &by);
+fn rand_probe(rng: &mut Rng, obs: &Value, memo: &std::collections::BTreeMap<String, [i64; 2]>, top: i64) -> Value {
+    let by = rand_caller(rng, obs, memo);
+    let mut left = aim(obs, memo, &by);
     let m = rand_msg(rng, &mut left, top, 55);
     json!({"act":"canq","by":by,"args":{"msgs":[m]}})
 }
@@ -579,8 +703,8 @@ pub fn random_run(rng: &mut Rng, run_no: u64, len: usize, out: &mut Out) {
         i += 1;
         let st = match rng.below(100) {
             0..=37 => {
-                let by = rand_caller(rng, &obs);
-                let mut left = rem_of(&obs, &by);
+                let by = rand_caller(rng, &obs, &run.memo);
+                let mut left = aim(&obs, &run.memo, &by);
                 let nm = match rng.below(20) {
                     0 | 1 => 0,
                     2..=11 => 1,
@@ -591,7 +715,7 @@ pub fn random_run(rng: &mut Rng, run_no: u64, len: usize, out: &mut Out) {
                 let msgs: Vec<Value> = (0..nm).map(|_| rand_msg(rng, &mut left, top, bias)).collect();
                 json!({"act":"execute","by":by,"args":{"msgs":msgs}})
             }
-            38..=45 => rand_probe(rng, &obs, top),
+            38..=45 => rand_probe(rng, &obs, &run.memo, top),
             46..=60 => {
                 let by = rand_admin(rng, &obs, 5, 6);
                 let sp = if rng.chance(1, 30) { "bad".to_string() } else { rng.pick(&ADDRS).to_string() };
@@ -602,7 +726,7 @@ pub fn random_run(rng: &mut Rng, run_no: u64, len: usize, out: &mut Out) {
             }
             61..=68 => {
                 let by = rand_admin(rng, &obs, 5, 6);
-                let sp = rand_caller(rng, &obs);
+                let sp = rand_caller(rng, &obs, &run.memo);
                 let di = rng.below(2) as usize;
                 let amt = around(rng, rem_of(&obs, &sp)[di], top);
                 json!({"act":"decrease_allowance","by":by,"args":{"spender":sp,"denom":DENOMS[di],"amt":amt,"exp":rand_exp(rng, run.w.h, run.w.t, true)}})
@@ -628,11 +752,22 @@ pub fn random_run(rng: &mut Rng, run_no: u64, len: usize, out: &mut Out) {
                 let by = rand_admin(rng, &obs, 2, 3);
                 json!({"act":"freeze","by":by,"args":{"x":0}})
             }
+            85..=88 => {
+                // an admin (mostly) relays a call to the proxy itself, alone or after another message
+                let by = rand_admin(rng, &obs, 5, 6);
+                let mut msgs = vec![];
+                if rng.chance(1, 3) {
+                    let mut left = aim(&obs, &run.memo, &by);
+                    msgs.push(rand_msg(rng, &mut left, top, 50));
+                }
+                msgs.push(rand_self(rng));
+                json!({"act":"execute","by":by,"args":{"msgs":msgs}})
+            }
             _ => json!({"act":"advance","by":"env","args":{"dh":rng.range(0,2),"dt":rng.range(0,12)}}),
         };
         obs = run.step(&st, out);
         if rng.chance(1, 2) {
-            let pr = rand_probe(rng, &obs, top);
+            let pr = rand_probe(rng, &obs, &run.memo, top);
             run.step(&pr, out);
         }
     }
@@ -647,7 +782,7 @@ pub fn run_schedule(sched: &Value, run_no: u64, out: &mut Out) {
         let obs = run.step(st, out);
         if s(st, "act") != "canq" {
             for _ in 0..2 {
-                let pr = rand_probe(&mut rng, &obs, 1 << 20);
+                let pr = rand_probe(&mut rng, &obs, &run.memo, 1 << 20);
                 run.step(&pr, out);
             }
         }
